@@ -375,6 +375,7 @@ static void GC_Mark_Stack_Fake(struct GC* gc) { }
 void GC_Mark(struct GC* gc) {
   
   if (gc is NULL or gc->nitems is 0) { return; }
+  CELLO_VERIF_POINT(CELLO_VP_GC_MARK, gc);
   
   /* Mark Thread Local Storage */
   mark(current(Thread), gc, (void(*)(var,void*))GC_Mark_And_Recurse);
@@ -429,6 +430,7 @@ static int GC_Show(var self, var out, int pos) {
 
 void GC_Sweep(struct GC* gc) {
    
+  CELLO_VERIF_POINT(CELLO_VP_GC_SWEEP, gc);
   gc->freelist = realloc(gc->freelist, sizeof(var) * gc->nitems);
   gc->freenum = 0;
   
@@ -479,6 +481,7 @@ void GC_Sweep(struct GC* gc) {
     var item = gc->freelist[i];
     if (item) {
       gc->freelist[i] = NULL;
+      CELLO_VERIF_POINT(CELLO_VP_GC_FINALISE, item);
       dealloc(destruct(item));
     }
   }
@@ -516,6 +519,7 @@ static void GC_Del(var self) {
 static void GC_Set(var self, var key, var val) {
   struct GC* gc = self;
   if (not gc->running) { return; }
+  CELLO_VERIF_POINT(CELLO_VP_GC_SET, gc);
   gc->nitems++;
   gc->maxptr = (uintptr_t)key > gc->maxptr ? (uintptr_t)key : gc->maxptr;
   gc->minptr = (uintptr_t)key < gc->minptr ? (uintptr_t)key : gc->minptr;
@@ -530,6 +534,7 @@ static void GC_Set(var self, var key, var val) {
 static void GC_Rem(var self, var key) {
   struct GC* gc = self;
   if (not gc->running) { return; }
+  CELLO_VERIF_POINT(CELLO_VP_GC_REM, gc);
   GC_Rem_Ptr(gc, key);
   GC_Resize_Less(gc);
   gc->mitems = gc->nitems + gc->nitems / 2 + 1;
